@@ -139,6 +139,13 @@ CHECKS = {
         note="re-assignments the first declared type cannot represent (int then float, bool then int, number/str) are a known finding kept out of the product (witnesses in known_findings.json)",
         technique="exhaustive enumeration of source-type x scope x order combinations + differential execution",
     ),
+    "C07": dict(
+        category="exploration",
+        text="Accounting: 63 probe statements (every Python statement kind, device-call forms, empty branches, multi-line and semicolon forms) x 8 scopes; with the guarded hook (REDUINO_VERIF=1) the silently skipped lines must all belong to the no-meaning set, and black-box every accepted script's firmware trace must equal CPython's. Layout: 10 base scripts x EVERY single edit (comment line at every index x every indentation column, trailing comment on every line incl. block headers, blank/whitespace-only lines, trailing whitespace, re-indentation with 1/2/3/8 spaces and tabs, CRLF, one space inserted/removed at every token boundary; thorough: all pairs of line insertions); a variant is admitted iff CPython's AST is unchanged and must then give byte-identical firmware.",
+        design_ref="DESIGN.md §2 C07",
+        note="hook: parser._VERIF_IGNORED (add-only, inert without REDUINO_VERIF=1); sketches that do not compile are C06's business",
+        technique="exhaustive enumeration of statement x scope and of all single layout edits with CPython's own parser as the meaning-preservation oracle",
+    ),
 }
 
 NOT_YET = {}
@@ -172,7 +179,7 @@ def main():
             "guard": "REDUINO_VERIF",
             "enable": "REDUINO_VERIF=1 in the environment of the check (set by the checks that use the hook); no build step",
             "baseline_off_cmd": "cd /repo && env -u REDUINO_VERIF /venv/bin/python -m pytest -ra -q -p no:cacheprovider --timeout=900 --continue-on-collection-errors",
-            "source_commits": [],
+            "source_commits": ["7d78685"],
             "add_only": True,
         },
         "engines": [
